@@ -40,6 +40,9 @@ DESIGN_REF = "DESIGN.md section 4, C06"
 FORMS = ["buck", "bornmayer", "coul", "constant", "exponential", "hbnd", "lj", "morse", "polynomial", "sqrt", "tang_toennies",
          "zbl", "zero", "exp_spline", "buck4"]
 NVEC = 8
+# parameters that multiply the whole term they belong to
+AMPLITUDES = {"buck": [0, 2], "bornmayer": [0], "coul": [0], "constant": [0], "exponential": [0], "hbnd": [0, 1], "lj": [0],
+              "morse": [2], "sqrt": [0], "tang_toennies": [0, 2, 3, 4]}
 
 
 def distinct(rng, name):
@@ -86,10 +89,36 @@ def gen_cases(rng, tier):
             v2[pos] = round(base[pos] * 1.25 + (0.5 if base[pos] == 0 else 0.0), 6)
           vecs.append(v2)
         vecs = (vecs * 2)[:max(NVEC, len(vecs))]
+      extreme = None
+      if k == 2 and name in AMPLITUDES:
+        # extreme magnitudes: every amplitude parameter scaled by the same power of ten (a whole potential of order 1e-30
+        # or 1e+30 is legitimate - unit conversions do this), so a threshold such as "|c| <= eps is zero" shows up
+        vecs = []
+        for e in rng.sample([-30, -24, -20, -17, -16, -13, 12, 18, 30], NVEC):
+          v = list(distinct(rng, name))
+          for pos in AMPLITUDES[name]:
+            v[pos] = (v[pos] * 10.0 ** e)
+          vecs.append(v)
+        extreme = "all_amplitudes"
+      if k == 2 and name == "polynomial":
+        vecs = []
+        for order in rng.sample(range(1, 9), NVEC):
+          v = [round(rng.uniform(-2, 2), 4) for _ in range(order + 1)]
+          # one coefficient far below machine epsilon relative to the others: at r = 30 its term still matters
+          v[-1] = rng.choice([1e-16, 2e-16, -1.5e-16, 3e-17, -1e-15, 1e-14, 5e-13])
+          if order >= 3 and rng.random() < 0.5:
+            v[rng.randrange(1, order)] = 0.0
+          vecs.append(v)
+        extreme = "tiny_high_order_coefficient"
+      if k == 3 and name == "polynomial":
+        vecs = []
+        for e in rng.sample([-30, -24, -20, -17, -16, -13, 12, 18, 30], NVEC):
+          vecs.append([(round(rng.uniform(-2, 2), 5) * 10.0 ** e) for _ in range(rng.randint(1, 6))])
+        extreme = "all_amplitudes"
       rs = sorted(set([round(rng.uniform(0.05, 30.0), rng.choice([2, 3, 5])) for _ in range(10)] + [30.0, rng.choice([0.01, 0.5, 1.0])]))
       if name == "zbl":
         rs = [r for r in rs if r <= 30.0]
-      cases.append({"form": name, "vecs": vecs, "rs": rs})
+      cases.append({"form": name, "vecs": vecs, "rs": rs, "extreme": extreme})
   if tier in ["thorough"]:
     cases.append({"kind": "suite"})   # the repository's own tests with this check's contracts armed
   return cases
@@ -127,6 +156,8 @@ def run_case(case, ctx):
   vecs = case["vecs"]
   rs = case["rs"]
   ctx.cls("form:" + name)
+  if case.get("extreme"):
+    ctx.cls("extreme_magnitudes:" + case["extreme"])
   from atsim.potentials import potentialfunctions as pfn
   from atsim.potentials import potentialforms as pfm
   M = R.Model()
